@@ -296,7 +296,7 @@ def Cfg.cutIn (g : Cfg) (i : Nat) : Cfg :=
 
 def deadStep (g : Cfg) (i : Nat) : Cfg :=
   let n := (g.get i).node
-  if n.isReturn || n.isAnyEntry || n.mightTerminate then g
+  if n.isReturn || n.isIndirectJump || n.isAnyEntry || n.mightTerminate then g
   else
     let g1 := if (g.get i).nexts.isEmpty then g.cutIn i else g
     if (g1.get i).prevs.isEmpty then g1.cutOut i else g1
